@@ -8,7 +8,9 @@ Oracle: triple-loop brute force.
 import itertools
 import numpy as np
 
-from ..engine.explore import Outcome
+from ..engine.explore import Outcome, Holder
+
+_holder = Holder(depth=3)
 from .c10 import freq_alphabet, STARTS
 
 PID = 'C11'
@@ -81,6 +83,9 @@ def cases(tier, seed):
     for B1, B2 in ((5, 4), (40, 12), (130, 3)):
         yield ('big', B1, B2, 1200, 3, 4, seed)
     yield ('big', 6, 5, 5000, 2, 2, seed)            # beyond 4096 samples, not a multiple of it
+    # bin grids whose folded (carrier, AM) index exceeds 2^16 (300 x 300, 120 x 600) and 2^8 (20 x 15)
+    for B1, B2 in ((300, 300), (120, 600), (20, 15)):
+        yield ('big', B1, B2, 40, 2, 3, seed)
     for B1 in b['B1']:
         for B2 in b['B2']:
             n1, n2 = 3 * B1 + 5, 3 * B2 + 5
@@ -169,6 +174,8 @@ def check_case(case):
                 viols.append(('raise:%s' % type(ex).__name__, '%s sq=%r raised %r' % (describe(case), sq, ex)))
                 continue
             trans += 1
+            for m_ in _holder.swap(got, 'holospectrum %s mode=%s squash_time=%r' % (describe(case), mode, sq)):
+                viols.append(('earlier-result-changed', m_))
             got = np.asarray(got)
             if sq is False:
                 want = exp
